@@ -63,6 +63,7 @@ Facts(W, flen, sig) ==
      /\ Require(l, "mdl-sections-in-bounds", sig, hf.inBounds)
      /\ Require(l, "mdl-sections-sized", sig, hf.sized)
      /\ Require(l, "mdl-index-padded16", sig, hf.padded)
+     /\ Require(l, "mdl-runtime-size-covers-tables", sig, hf.runtimeCovers)
      /\ Require(l, "mdl-file-header-agrees", sig, hf.fileHeaderAgrees)
      /\ Require(l, "mdl-meshes-inside-sections", sig, hf.meshesInside)
 \* the written file, decoded by the specification and by the library, carries the expected geometry
